@@ -311,7 +311,7 @@ let keys_line l =
   print_endline (Buffer.contents out)
 
 (* infer case (contract inference, model M10): fuel param nvals {kind x lenpos nedges edges}* nblocks
-   {npreds preds nsuccs succs nphis phis hasif iseq x y hasret ret}*   -> I (inferred) | N | F (out of fuel) *)
+   {npreds preds nsuccs succs nphis phis ndefs defs hasif iseq x y hasret ret}*   -> I (inferred) | N | F (out of fuel) *)
 let infer_line l =
   let a = Array.of_list (ints_of_line l) in
   let pos = ref 0 in
@@ -329,13 +329,22 @@ let infer_line l =
   let nb = next () in
   let blocks = List.init nb (fun _ ->
     let lst () = let n = next () in List.init n (fun _ -> nat (next ())) in
-    let preds = lst () in let succs = lst () in let phis = lst () in
+    let preds = lst () in let succs = lst () in let phis = lst () in let defs = lst () in
     let hasif = next () in let iseq = next () in let x = next () in let y = next () in
     let hasret = next () in let ret = next () in
-    { ib_preds = preds; ib_succs = succs; ib_phis = phis;
+    { ib_preds = preds; ib_succs = succs; ib_phis = phis; ib_defs = defs;
       ib_if = (if hasif = 1 then Some ((iseq = 1, nat x), nat y) else None);
       ib_ret = (if hasret = 1 then Some (nat ret) else None) }) in
   let f = { if_param = nat param; if_vals = vals; if_blocks = blocks } in
+  if Array.length Sys.argv > 2 && Sys.argv.(2) = "dbg" then begin
+    (match loop f (nat fuel) { i_sets = []; i_seen = [] } [O] with
+     | IDone s ->
+       List.iter (fun (b, ts) ->
+         Printf.printf "block %d:\n" (int_of_nat b);
+         List.iter (fun t -> print_endline ("   {" ^ String.concat ", " (List.map (fun (k, v) ->
+           Printf.sprintf "v%d=%s" (int_of_nat k) (match v with NNil -> "nil" | NNon -> "non" | NUnk -> "unk")) t) ^ "}")) ts) s.i_sets
+     | _ -> print_endline "gave up / out of fuel")
+  end;
   print_endline (match infer f (nat fuel) with IInferred -> "I" | INotInferred -> "N" | INoFuel -> "F")
 
 let () =
